@@ -170,6 +170,16 @@ def dictionary(start_id):
     add([variant("Err", "tuple", [field("u8")], aci=1), variant("Error", "named", [field("String", "text")], default=True)])
     # an enum NAMED like a type the generated impls mention
     add([variant("Eof"), variant("Bad", ser=["bad", "invalid"]), variant("Other", dis=True)], name="ParseError")
+    # every spelling begins alike (a rejected input that begins the same way is still handed on unchanged)
+    add([variant("Start", ser=["app.start"]), variant("Stop", ser=["app.stop"]), variant("Restart", ser=["app.restart", "app.re"], aci=1)], perr=True)
+    add([variant("Start", ser=["app.start"]), variant("Stop", ser=["app.stop"]), variant("Restart", ser=["app.restart"])])
+    # spellings that collide under common 32-bit string hashes (FNV-1a); spellings whose order as source text (quoted, escaped) differs
+    # from their order as values
+    add([variant("A", ser=["costarring"]), variant("B", ser=["liquid"]), variant("C", ser=["declinate"]), variant("D", ser=["macallums"]),
+         variant("E", ser=["altarage"]), variant("F", ser=["zinke"]), variant("G", ser=["altarages"]), variant("H", ser=["zinkes"])])
+    add([variant("A", ser=["Done"]), variant("B", ser=["Done!"]), variant("C", ser=["New York"]), variant("D", ser=["New York City"]),
+         variant("E", ser=["a\"b"]), variant("F", ser=["a b"]), variant("G", ser=["a\\b"]), variant("H", ser=["a#b"]), variant("I", ser=["In Progress"]),
+         variant("J", ser=["In Progress (blocked)"])])
     # more variants than a byte counts
     add([variant("Name%d" % k, aci=(1 if k % 50 == 3 else 2), dis=(k % 97 == 11)) for k in range(300)], style="kebab-case")
     # empty enum, single variant
@@ -309,6 +319,16 @@ def gen_inputs(E, facts, rng, cap, flip_limit=6):
             push(must, prefix + s)
         push(must, prefix)
         push(must, prefix + "teal")
+    # what all spellings begin with (and end with), alone and in front of (behind) something else
+    if len(sps) >= 2:
+        import os.path
+        cpre = os.path.commonprefix(sps)
+        csuf = os.path.commonprefix([x[::-1] for x in sps])[::-1]
+        for c in (cpre, csuf):
+            if c:
+                push(must, c)
+                push(must, c + "x")
+                push(must, "x" + c)
     # long inputs: 63 / 64 / 65 bytes and more (length-indexed tables and masks end somewhere)
     for n in (63, 64, 65, 128, 300):
         push(must, "x" * n)
